@@ -277,7 +277,7 @@ def unw64(l):
 
 
 def validate_trace(wd, module, cfg, trace_path, nsplit=None, timeout=1800, env=None, xmx='3g', min_chunk=200,
-                   max_rejects=40):
+                   max_rejects=40, boundary=None):
     """Validate an ndjson trace with TLC trace spec `module` (variable l, POSTCONDITION on diameter).
     The trace is split into chunks validated by parallel single-worker TLC runs.  After a rejected record the
     remainder of the chunk is validated too (so one rejection never leaves later records unexamined).
@@ -289,7 +289,20 @@ def validate_trace(wd, module, cfg, trace_path, nsplit=None, timeout=1800, env=N
     if nsplit is None:
         nsplit = max(1, min(NCPU, total // min_chunk))
     per = (total + nsplit - 1) // nsplit
-    chunks = [(i * per, min(total, (i + 1) * per)) for i in range(nsplit) if i * per < total]
+    if boundary is None:
+        chunks = [(i * per, min(total, (i + 1) * per)) for i in range(nsplit) if i * per < total]
+    else:
+        # stateful trace specifications: chunks (and resumption after a rejection) only at record boundaries where
+        # the specification's state is back to its initial value (e.g. the end of a scenario)
+        ends = [i + 1 for i, ln in enumerate(lines) if boundary(ln)]
+        if not ends or ends[-1] != total:
+            ends.append(total)
+        chunks = []; lo = 0
+        for e in ends:
+            if e - lo >= per or e == total:
+                if e > lo:
+                    chunks.append((lo, e))
+                lo = e
     out = dict(accepted=0, total=total, rejected=[], infra=[], states=0, transitions=0)
 
     def one(ch):
@@ -334,6 +347,9 @@ def validate_trace(wd, module, cfg, trace_path, nsplit=None, timeout=1800, env=N
                 rec = lines[idx]
             rej.append((idx, rec)); last = r.out[-3000:]
             cur = idx + 1
+            if boundary is not None:
+                while cur < hi and not boundary(lines[cur - 1]):
+                    cur += 1
         return acc, rej, infra, st, tr, last
     with ThreadPoolExecutor(max_workers=NCPU) as ex:
         results = list(ex.map(one, chunks))
